@@ -10,6 +10,7 @@ import (
 	"strings"
 
 	"github.com/gookit/rux"
+	"github.com/gookit/rux/pkg/render"
 )
 
 // engine gencode: a sampled check of the TRANSLATOR. The model side is not the hand-written model but the Lean
@@ -23,6 +24,8 @@ import (
 //	compile <path>           -> ok <first> <start> <spath> <regex> <names> | panic
 //	build <path> <k=v,...>   -> <path> <sorted query pairs>          (NewBuildRequestURL().Path(p).Build(M))
 //	cnew <cap> | cset <k> <id> | cget <k> | cdel <k> | chas <k> | clen | ckeys      (cachedRoutes)
+//	rinit <ct|-> <n:e,...> | rblob <ct> <data> | rtext <data> | rhtml <data> | rjson | rjsonp <cb> | rxml | rauto <accept> | rst
+//	     (pkg/render on a plain recording writer; the value rendered is the string "x"; only the error flags of the script count)
 //	winit <n:e,...> | wh <code> | wr <bytes> | fl | wst                              (responseWriter, through a Context
 //	     initialised on a recording writer whose answers to Write are scripted: accepted bytes, error or not)
 type gencodeEngine struct{}
@@ -85,6 +88,9 @@ func (gencodeEngine) Corpus() []Case {
 			"build "+p("/static")+" -", "build "+p("/u/{id}")+" "+gcPairs(map[string]string{"page": "2", "sort": "a b"})),
 		c("cnew 2", "cset "+p("GET/a")+" 1", "cset "+p("GET/b")+" 2", "cget "+p("GET/a"), "cset "+p("GET/c")+" 3", "ckeys", "clen", "chas "+p("GET/b"),
 			"cdel "+p("GET/a"), "cdel "+p("GET/a"), "cget "+p("GET/zz"), "cset "+p("GET/c")+" 9", "cget "+p("GET/c"), "ckeys"),
+		c("rinit - -", "rblob "+p("image/png")+" "+p("abc"), "rst", "rtext "+p(""), "rst", "rinit "+p("text/x-custom")+" -", "rjson", "rst", "rjsonp "+p("cb"), "rst",
+			"rinit - 0:1", "rjsonp "+p("cb"), "rst", "rinit - 0:0,0:1", "rxml", "rst", "rinit - -", "rauto "+p("image/png, text/xml"), "rst",
+			"rinit - -", "rauto "+p("image/png"), "rst", "rinit - -", "rauto "+p(""), "rst", "rinit - -", "rauto "+p("text/html"), "rst"),
 		c("winit -", "wst", "wh 404", "wst", "wr "+p("ab"), "wst", "wh 500", "wr "+p(""), "fl", "wst"),
 		c("winit 1:0,5:1", "wr "+p("abc"), "wr "+p("de"), "wst", "winit -", "fl", "wst", "wh 0", "wh -1", "wr "+p("x"), "wst"),
 		c("cnew 0", "cset "+p("k")+" 1", "clen", "ckeys", "cget "+p("k"), "cnew 1", "cset "+p("k")+" 1", "cset "+p("k")+" 2", "cget "+p("k"), "clen"),
@@ -102,7 +108,41 @@ func gcRandPath(r *Rand) string {
 
 func (gencodeEngine) Gen(r *Rand, tier string) Case {
 	var ops []string
-	switch r.Intn(6) {
+	switch r.Intn(7) {
+	case 6: // pkg/render
+		for i, n := 0, r.Range(1, 3); i < n; i++ {
+			var sc []string
+			for k, m := 0, r.Intn(4); k < m; k++ {
+				sc = append(sc, "0:"+strconv.Itoa(r.PickInt([]int{0, 0, 0, 1})))
+			}
+			scs := "-"
+			if len(sc) > 0 {
+				scs = strings.Join(sc, ",")
+			}
+			ops = append(ops, "rinit "+hx(r.Pick([]string{"", "", "text/x-custom", "application/json"}))+" "+scs)
+			for k, m := 0, r.Range(1, 3); k < m; k++ {
+				switch r.Intn(8) {
+				case 0:
+					ops = append(ops, "rblob "+hx(r.Pick([]string{"image/png", "text/plain; charset=utf-8", ""}))+" "+hx(r.Pick([]string{"", "abc", "x"})))
+				case 1:
+					ops = append(ops, "rtext "+hx(r.Pick([]string{"", "hello"})))
+				case 2:
+					ops = append(ops, "rhtml "+hx(r.Pick([]string{"", "<b>x</b>"})))
+				case 3:
+					ops = append(ops, "rjson")
+				case 4:
+					ops = append(ops, "rjsonp "+hx(r.Pick([]string{"cb", "", "a.b"})))
+				case 5:
+					ops = append(ops, "rxml")
+				default:
+					ops = append(ops, "rauto "+hx(r.Pick([]string{"", "application/json", "text/html", "text/plain", "application/xml", "text/xml",
+						"image/png", "image/png, application/json", "text/html;q=0.9, application/xml", "*/*", " application/json ; q=1 ,text/plain",
+						"application/json;charset=utf-8", ",,", "text/plain,application/json"})))
+				}
+				ops = append(ops, "rst")
+			}
+		}
+		return Case{Ops: ops, Tag: "render"}
 	case 5: // responseWriter
 		var sc []string
 		for i, n := 0, r.Intn(4); i < n; i++ {
@@ -252,6 +292,24 @@ func (w *gcRec) Write(b []byte) (int, error) {
 	return n, nil
 }
 
+// gcPlain is a plain http.ResponseWriter for pkg/render: it records the writes and fails them as the script says
+type gcPlain struct {
+	hdr    http.Header
+	log    []string
+	script []bool
+}
+
+func (w *gcPlain) Header() http.Header { return w.hdr }
+func (w *gcPlain) WriteHeader(int)     {}
+func (w *gcPlain) Write(b []byte) (int, error) {
+	w.log = append(w.log, "wr:"+hx(string(b)))
+	k := len(w.log) - 1
+	if k < len(w.script) && w.script[k] {
+		return len(b), errors.New("write failed")
+	}
+	return len(b), nil
+}
+
 type gcCache interface {
 	Set(k string, v *rux.Route) bool
 	Get(k string) (*rux.Route, bool)
@@ -273,6 +331,8 @@ func (gencodeEngine) Run(ops []string) (ans []string, oracle []string) {
 		byID[id], ids[rt] = rt, id
 		return rt
 	}
+	pw := &gcPlain{hdr: http.Header{}}
+	perr := false
 	rec := &gcRec{hdr: http.Header{}}
 	ctx := &rux.Context{}
 	ctx.Init(rec, httptest.NewRequest("GET", "/", nil))
@@ -326,6 +386,49 @@ func (gencodeEngine) Run(ops []string) (ans []string, oracle []string) {
 					q[k] = vs[0]
 				}
 				return hx(u.Path) + " " + gcPairs(q)
+			case f[0] == "rinit" && len(f) == 3:
+				pw = &gcPlain{hdr: http.Header{}}
+				perr = false
+				if ct := arg(1); ct != "" {
+					pw.hdr.Set("Content-Type", ct)
+				}
+				if f[2] != "-" {
+					for _, x := range strings.Split(f[2], ",") {
+						pw.script = append(pw.script, strings.Split(x, ":")[1] == "1")
+					}
+				}
+				return "ok"
+			case f[0] == "rblob" && len(f) == 3:
+				perr = render.Blob(pw, arg(1), []byte(arg(2))) != nil
+				return "ok"
+			case f[0] == "rtext" && len(f) == 2:
+				perr = render.Text(pw, arg(1)) != nil
+				return "ok"
+			case f[0] == "rhtml" && len(f) == 2:
+				perr = render.HTML(pw, arg(1)) != nil
+				return "ok"
+			case f[0] == "rjson" && len(f) == 1:
+				perr = render.JSONRenderer{}.Render(pw, "x") != nil
+				return "ok"
+			case f[0] == "rjsonp" && len(f) == 2:
+				perr = render.JSONPRenderer{Callback: arg(1)}.Render(pw, "x") != nil
+				return "ok"
+			case f[0] == "rxml" && len(f) == 1:
+				perr = render.XMLRenderer{}.Render(pw, "x") != nil
+				return "ok"
+			case f[0] == "rauto" && len(f) == 2:
+				req := httptest.NewRequest("GET", "/", nil)
+				if a := arg(1); a != "" {
+					req.Header.Set("Accept", a)
+				}
+				perr = render.Auto(pw, req, "x") != nil
+				return "ok"
+			case f[0] == "rst" && len(f) == 1:
+				l := "-"
+				if len(pw.log) > 0 {
+					l = strings.Join(pw.log, ",")
+				}
+				return hx(pw.hdr.Get("Content-Type")) + " " + gcTF(perr) + " " + l
 			case f[0] == "winit" && len(f) == 2:
 				rec = &gcRec{hdr: http.Header{}}
 				if f[1] != "-" {
